@@ -2,8 +2,10 @@
 \* Validates what the real api package answered (driver harness/cmd/apiauth) against the ApiAuth model
 \* (C12, and the API part of C06).  trace.ndjson, one JSON object per line:
 \*   {"e":"new","authset":b}                       start of a history: no keys, no dev mode, authenticator "nil"
-\*   {"e":"keys","keys":[{r,w,exp,form,short,reuse},..]}   the API key option was set and has been loaded
-\*   {"e":"dev","on":b}   {"e":"auth","mode":m,"r":r,"w":w}   {"e":"expire","s":k}   {"e":"clean"}   {"e":"wait"}
+\*   {"e":"keys","keys":[{r,w,exp,form,short,reuse},..],"err":""}   the API key option was set and has been loaded
+\*   {"e":"dev","on":b,"err":""}           ("err":"timeout": the configuration change did not return)
+\*   {"e":"storm","keys":[..],"on":b,"err":""}   both options were changed by two concurrent callers, repeatedly
+\*   {"e":"auth","mode":m,"r":r,"w":w}   {"e":"expire","s":k}   {"e":"clean"}   {"e":"wait"}
 \*   {"e":"req","q":{request},"phase":p,"ob":{st,inv,tr,tw,ac,sc,err}}   one request and what was observed
 \*   {"e":"apipanic","kind":k,"pv":v,"st":n,"err":"","probe":n,"probeinv":b}   a panicking endpoint function
 EXTENDS ApiAuth, Json, TLC
@@ -18,8 +20,10 @@ Init == S = S0(TRUE) /\ l = 1
 Ev == Trace[l]
 
 New    == Ev.e = "new"    /\ S' = S0(Ev.authset)
-Keys   == Ev.e = "keys"   /\ S' = SetKeys(S, Ev.keys)
-Dev    == Ev.e = "dev"    /\ S' = SetDev(S, Ev.on)
+\* a configuration change returns (it never wedges the server)
+Keys   == Ev.e = "keys"   /\ Ev.err = "" /\ S' = SetKeys(S, Ev.keys)
+Dev    == Ev.e = "dev"    /\ Ev.err = "" /\ S' = SetDev(S, Ev.on)
+Storm  == Ev.e = "storm"  /\ Ev.err = "" /\ S' = SetDev(SetKeys(S, Ev.keys), Ev.on)
 Auth   == Ev.e = "auth"   /\ S' = SetAuth(S, Ev.mode, Ev.r, Ev.w)
 Expire == Ev.e = "expire" /\ S' = ExpireSession(S, Ev.s)
 Clean  == Ev.e = "clean"  /\ S' = CleanSessions(S)
@@ -30,7 +34,7 @@ Req    == /\ Ev.e = "req"
 Panic  == Ev.e = "apipanic" /\ PanicAllowed(Ev) /\ S' = S
 
 Next == /\ l <= Len(Trace)
-        /\ (New \/ Keys \/ Dev \/ Auth \/ Expire \/ Clean \/ Wait \/ Req \/ Panic)
+        /\ (New \/ Keys \/ Dev \/ Storm \/ Auth \/ Expire \/ Clean \/ Wait \/ Req \/ Panic)
         /\ l' = l + 1
 Spec == Init /\ [][Next]_vars
 
